@@ -13,6 +13,7 @@ from .common import get_interp, show, World
 from .cloudworld import CloudWorld
 
 PROPERTY = 'C13'
+REPLAY_RETRIES = 2
 LEVEL = 'other'
 
 # documented constants, written here independently of the code (docs/src/encryption.md, sync-protocol.md)
@@ -53,8 +54,13 @@ class CryptorHarness:
         payload = sym_bytes(c, plen, 'pt')
         cr = self.mk(salt, secret)
 
+        opens = []       # opening attempts made on this path, in replayable form (filled in below)
+
         def wit(m):
-            return {'mode': self.mode, 'salt': show(salt, m), 'secret': show(secret, m), 'vid': show(vid, m), 'payload': show(payload, m)}
+            d = {'mode': self.mode, 'salt': show(salt, m), 'secret': show(secret, m), 'vid': show(vid, m), 'payload': show(payload, m)}
+            d['scenario'] = {'kind': 'seal', 'salt': d['salt'], 'secret': d['secret'], 'version': str(d['vid']), 'payload': d['payload'],
+                             'opens': [o(m) for o in opens]}
+            return d
         # --- key derivation parameters
         k = log['kdf'][-1]
         ok = (k.alg.name == DOC_KDF and k.iterations == DOC_ITERATIONS and cr.fields[0].fields[0].name == DOC_AEAD
@@ -99,6 +105,7 @@ class CryptorHarness:
         c.cover('sealed layout checked')
         mode = self.mode
         if mode == 'roundtrip':
+            opens.append(lambda m: {'expect': 'ok'})
             r = I.call('Cryptor::unseal', [mkref(cr), Adt('Sealed', 0, [vid, PyVec(list(sbytes))])])
             ok = r.variant == 0 and val_eq(r.fields[0].fields[1], payload) if r.variant == 0 else False
             if not c.prove(ok, 'unseal(seal(x)) != x', wit, {'class': 'roundtrip'}):
@@ -110,6 +117,9 @@ class CryptorHarness:
             secret2 = sym_bytes(c, len(secret.items), 'secret2')
             vid2 = c.fresh_int('vid2', 0, 2 ** 128 - 1)
             cr2 = self.mk(salt2, secret2)
+            opens.append(lambda m: {'salt': show(salt2, m), 'secret': show(secret2, m), 'version': str(show(vid2, m)),
+                                    'expect': 'ok' if (show(salt2, m) == show(salt, m) and show(secret2, m) == show(secret, m)
+                                                       and show(vid2, m) == show(vid, m)) else 'err'})
             r = I.call('Cryptor::unseal', [mkref(cr2), Adt('Sealed', 0, [vid2, PyVec(list(sbytes))])])
             same = z_all([val_eq(salt2, salt), val_eq(secret2, secret), vid2 == vid])
             if r.variant == 0:
@@ -131,13 +141,20 @@ class CryptorHarness:
                 if isinstance(t[i], int) or z3.is_expr(t[i]):
                     c.assume(nb != t[i])
                 t[i] = nb
+                opens.append(lambda m: {'tamper': {'kind': 'modify', 'index': i, 'xor': 1 + show(nb, m) % 255}, 'expect': 'err'})
             elif kind == 'truncate':
-                t = t[:c.choose(len(t), 'keep')]
+                keep = c.choose(len(t), 'keep')
+                t = t[:keep]
+                opens.append(lambda m: {'tamper': {'kind': 'truncate', 'keep': keep}, 'expect': 'err'})
             elif kind == 'extend':
-                t = t + [c.fresh_int('extra', 0, 255)]
+                extra = c.fresh_int('extra', 0, 255)
+                t = t + [extra]
+                opens.append(lambda m: {'tamper': {'kind': 'extend', 'bytes': [show(extra, m)]}, 'expect': 'err'})
             else:
                 t[0] = c.fresh_int('envver', 0, 255)
                 c.assume(t[0] != 1)
+                ev = t[0]
+                opens.append(lambda m: {'tamper': {'kind': 'modify', 'index': 0, 'xor': show(ev, m) ^ 1}, 'expect': 'err'})
             r = I.call('Cryptor::unseal', [mkref(cr), Adt('Sealed', 0, [vid, PyVec(t)])])
             if not c.prove(r.variant == 1, 'modified / truncated / extended data was returned instead of rejected', wit,
                            {'class': 'tamper-accepted', 'kind': kind}):
@@ -145,6 +162,10 @@ class CryptorHarness:
             c.cover('tamper rejected: ' + kind)
         out = {'mode': mode, 'payload_len': plen}
         if c.want_sample:
+            m = c.get_model()
+            if m is not None:
+                out['scenario'] = wit(m)['scenario']
+                out['predicted'] = {'kind': 'seal'}
             out['_encoded'] = sorted(I.encoded)
             out['_modelled'] = sorted(I.modelled)
         return out
@@ -170,7 +191,9 @@ class CallSiteHarness:
         w.run(w.f_add_snapshot(srv, vid, clone_val(spl)))
 
         def wit(m):
-            return {'store': [repr(o['name'])[:80] for o in w.store.objs]}
+            scn, pred = w.record(m)
+            scn['inspect_sealing'] = True
+            return {'store': [repr(o['name'])[:80] for o in w.store.objs], 'scenario': scn, 'payloads': [show(pl, m), show(spl, m)]}
         plain_terms = [id(x) for x in pl.items + spl.items]
         for o in w.store.objs:
             n = o['name']
@@ -193,21 +216,102 @@ class CallSiteHarness:
         vobj = [o for o in w.store.objs if isinstance(o['name'], SegStr) and o['name'].segs[0] == 'v-'][0]
         other = w.new_uuid()
         w.store.seq += 1
-        w.store.objs.append({'name': SegStr(['v-', ('uuid', vid), '-', ('uuid', other)]), 'value': PyVec(list(vobj['value'].items)),
-                             'creation': 2_000_000_000, 'seq': w.store.seq})
+        newname = SegStr(['v-', ('uuid', vid), '-', ('uuid', other)])
+        w.store.objs.append({'name': newname, 'value': PyVec(list(vobj['value'].items)), 'creation': 2_000_000_000, 'seq': w.store.seq})
+        w._phase('tweak')['tweaks'].append(('copy', vobj['name'], newname))
         for o in w.store.objs:
             if o['name'] == 'latest':
                 from mirsym.models import strings
                 o['value'] = strings.into_bytes(I, SegStr([('uuid', other)]))
+        w._phase('tweak')['tweaks'].append(('put_latest', other))
         r = w.run(w.f_get_child_version(srv, vid))
         if not c.prove(r.variant == 1, 'a re-labelled object (sealed for another version id) was returned instead of rejected', wit, {'class': 'relabel'}):
             return None
         c.cover('relabelled object rejected')
         out = {'objects': len(w.store.objs)}
         if c.want_sample:
+            m = c.get_model()
+            if m is not None:
+                d = wit(m)
+                out['scenario'] = d['scenario']
+                out['predicted'] = {'kind': 'cloud', 'payloads': d['payloads']}
             out['_encoded'] = sorted(I.encoded)
             out['_modelled'] = sorted(I.modelled)
         return out
+
+
+def _seal_problems(scn, out):
+    """judge tc-replay's output for a 'seal' scenario against the documented construction (docs/src/encryption.md);
+    the reference is an independent implementation written directly on ring inside the replay binary"""
+    probs = []
+    if not isinstance(out, dict) or 'seal_err' in out or 'panic' in out or 'error' in out:
+        return [{'replay': str(out)[:300]}]
+    pl = scn['payload']
+    if out.get('format_byte') != 1 or out.get('sealed_len') != 1 + 12 + len(pl) + 16:
+        probs.append({'layout': [out.get('format_byte'), out.get('sealed_len')]})
+    if out.get('independent_open') != {'ok': pl}:
+        probs.append({'independent implementation of the documented construction cannot open what the crate sealed': out.get('independent_open')})
+    if out.get('crate_opens_independent') != {'ok': pl}:
+        probs.append({'crate cannot open what the documented construction sealed': out.get('crate_opens_independent')})
+    if out.get('round_trip') != {'ok': pl}:
+        probs.append({'round_trip': out.get('round_trip')})
+    if out.get('nonce_fresh') is not True:
+        probs.append({'nonce_fresh': out.get('nonce_fresh')})
+    for o, r in zip(scn.get('opens', []), out.get('opens', [])):
+        if o.get('expect') == 'ok' and r != {'ok': pl}:
+            probs.append({'open rejected or wrong': r, 'attempt': o})
+        if o.get('expect') == 'err' and 'err' not in r:
+            probs.append({'open accepted': r, 'attempt': o})
+    return probs
+
+
+def _callsite_problems(scn, out, payloads):
+    probs = []
+    if not isinstance(out, dict) or 'sealing' not in out:
+        return [{'replay': str(out)[:300]}]
+    labels = out.get('labels', {})
+
+    def name_of(segs):
+        return ''.join(s if isinstance(s, str) else ('0' * 32 if s == 0 else str(labels.get(str(s['l']), '?'))) for s in segs)
+    copies = set()
+    for ph in scn['phases']:
+        for t in ph.get('tweak', []):
+            if 'copy' in t:
+                copies.add(name_of(t['copy']['to']))
+    for o in out['sealing']:
+        if o['name'] in copies:
+            continue          # the re-labelled copy made by the scenario itself
+        if not o.get('opens') or o['opens'].get('with') != 'own':
+            probs.append({'object not sealed in the documented form under its own version id': o})
+        elif o['opens']['plain'] not in payloads:
+            probs.append({'object opens to something else than what was handed over': o})
+    if len(out['sealing']) < 2:
+        probs.append({'objects': len(out['sealing'])})
+    # the last sequential call is the read of the re-labelled object: it must fail
+    last = [ph for ph in out['phases'] if isinstance(ph.get('results'), list) and ph['results']]
+    if last and 'err' not in last[-1]['results'][-1] and len(scn['phases']) >= 3:
+        probs.append({'re-labelled object returned': last[-1]['results'][-1]})
+    return probs
+
+
+def replay_scenario(v):
+    return v['witness']['scenario']
+
+
+def replay_judge(scn, out, v):
+    if scn.get('kind') == 'seal':
+        p = _seal_problems(scn, out)
+    else:
+        p = _callsite_problems(scn, out, v['witness'].get('payloads', []))
+    return bool(p), p[:4]
+
+
+def validate_samples(s, out):
+    if s['scenario'].get('kind') == 'seal':
+        p = _seal_problems(s['scenario'], out)
+    else:
+        p = _callsite_problems(s['scenario'], out, s['predicted'].get('payloads', []))
+    return (not p), p[:4]
 
 
 def required_covers(tier):
@@ -225,7 +329,7 @@ def configs(tier):
 ASSUMPTIONS = [
     'ring primitives idealised: PBKDF2 = injective function of (algorithm, iterations, salt, secret); AEAD open succeeds iff ciphertext+tag are exactly those of one seal call and key, nonce, AAD are equal (any modification or truncation rejected) — the textbook contracts; the primitives themselves (assembly/C behind FFI, 600000 HMAC iterations) cannot be executed symbolically',
     'claimed for the Rust-side construction (parameters, envelope layout, AAD, nonce freshness, round trip, rejection) and for the object-store call sites; the HTTP and git call sites are not executed',
-    'counterexamples are judged by the engine (Cryptor is crate-private)',
+    'replay: the solver model (salt, secret, version id, payload, tampering) is run on the compiled Cryptor through the hook and judged against an independent implementation of the documented construction written directly on ring in the replay binary (real PBKDF2 / ChaCha20-Poly1305); object-store call sites: every stored object must open under its own version id with that reference',
 ]
 EXPLANATION = ('salt, secret, version ids, payload and tampered bytes are z3 terms; the recorded KDF/AEAD calls are compared with the '
                'documented constants written independently in the harness; z3 must refute: wrong parameters or layout, stale nonce, '
